@@ -1,0 +1,8 @@
+//go:build verif
+
+package rsyncd
+
+// VerifCheckACL exposes checkACL to the verification harness under /verif.
+func VerifCheckACL(acls []string, remoteAddr string) error {
+	return checkACL(acls, remoteAddr)
+}
